@@ -64,6 +64,17 @@ PARAM_TYPES = {"x": "Xt", "match_tracking": "Art.MT", "epsilon": "α", "X": ("li
 IGNORED_PARAMS = {"y"}          # accepted for sklearn compatibility, never read by BaseART
 
 
+# second profile: SimpleARTMAP (its own attributes: the nested A-side estimator and the class map)
+SMAP_FILE = "artlib/supervised/SimpleARTMAP.py"
+PURE_INLINE = set()            # methods without side effects whose body (with `return`s) is inlined as an expression
+NESTED = {}                    # attribute -> class of a nested estimator whose translated methods may be called
+PROFILES = {}
+
+
+def use_profile(name: str):
+    globals().update(PROFILES[name])
+
+
 # ------------------------------------------------------------------------------------------------ types
 # atoms are strings ("Nat", "Bool", "X", "Wt", "P", "C", "α", "Art.MT"); ("list", t); ("opt", t); ("prod", [t...])
 SELF_TYPES = {"W": ("list", "Wt"), "weight_sample_counter_": ("list", "Nat"), "sample_counter_": "Nat", "params": "P",
@@ -76,6 +87,8 @@ METHOD_RET = {"step_fit": "Nat", "step_pred": "Nat", "predict": ("list", "Nat"),
 
 
 def lean_ty(t) -> str:
+    if t == "dict":
+        return "List (Option Nat)"
     if isinstance(t, str):
         return t
     if t[0] == "list":
@@ -125,12 +138,17 @@ class Env:
         self.fn = ""
         self.ret_ty = "Nat"                 # what the method returns besides the new self
         self.loopn = [0]                    # shared loop counter
+        self.lambdas: dict[str, ast.Lambda] = {}   # local name -> lambda bound to it
+        self.dicts: dict[str, dict] = {}           # local name -> compile-time dict literal {key: (text, type)}
+        self.pure = False                   # translating a side-effect-free method as an expression
+        self.trees: dict[str, ast.Module] = {}     # class name -> module AST (nested estimators)
 
     def copy(self):
         e = Env(self.tree, self.cls)
         e.names, e.bound, e.prefix, e.in_loop, e.callbacks = dict(self.names), list(self.bound), self.prefix, self.in_loop, set(self.callbacks)
         e.rec = self.rec
         e.types, e.helpers, e.fn, e.ret_ty, e.loopn = dict(self.types), self.helpers, self.fn, self.ret_ty, self.loopn
+        e.lambdas, e.dicts, e.pure, e.trees = dict(self.lambdas), dict(self.dicts), self.pure, self.trees
         return e
 
     def bind(self, py: str, ty=None) -> str:
@@ -305,11 +323,21 @@ def ext(e: ast.AST, env: Env):
             return (f"{env.names[l.id]}_is_none" if isinstance(op, ast.Is) else f"(!{env.names[l.id]}_is_none)"), "Bool"
         if isinstance(op, ast.Eq):
             return f"({ex(l, env)} == {ex(r, env)})", "Bool"
+        if isinstance(op, ast.NotEq):
+            return f"({ex(l, env)} != {ex(r, env)})", "Bool"
+        if isinstance(op, (ast.In, ast.NotIn)) and ext(r, env)[1] == "dict":
+            t_ = f"(Art.mapGet {ex(r, env)} {arg(l, env)})"
+            return (f"{t_}.isSome" if isinstance(op, ast.In) else f"{t_}.isNone"), "Bool"
         if isinstance(op, ast.In) and isinstance(r, ast.List):
             return f"([{', '.join(ex(t, env) for t in r.elts)}].contains {ex(l, env)})", "Bool"
         raise Unsupported(f"comparison {ast.unparse(e)}")
+    if isinstance(e, ast.Subscript) and isinstance(e.ctx, ast.Load) and isinstance(e.value, ast.Name) and e.value.id in env.dicts \
+            and isinstance(e.slice, ast.Constant) and e.slice.value in env.dicts[e.value.id]:
+        return env.dicts[e.value.id][e.slice.value]
     if isinstance(e, ast.Subscript) and isinstance(e.ctx, ast.Load) and not isinstance(e.slice, ast.Slice):
         bt, bty = ext(e.value, env)
+        if bty == "dict":
+            return f"((Art.mapGet {bt} {arg(e.slice, env)}).getD 0)", "Nat"
         return f"({bt})[{ex(e.slice, env)}]!", elem_ty(bty, ast.unparse(e))
     if isinstance(e, ast.ListComp):
         if len(e.generators) != 1 or e.generators[0].ifs or e.generators[0].is_async:
@@ -345,6 +373,8 @@ def ext(e: ast.AST, env: Env):
                 reads = " ".join(SELF_FIELDS[r_][0] for r_ in READS.get(m, []))
                 return "(E." + field + " " + (reads + " " if reads else "") + \
                     " ".join(arg(x, env) for x in order_args(call, names, m)) + ")", EXTERNAL_RET[m]
+            if m in PURE_INLINE:
+                return pure_inline(m, call, env)
             if m in INLINE:
                 f = find_function(env.tree, env.cls, m)
                 body = strip_doc(f.body)
@@ -404,6 +434,55 @@ def ext(e: ast.AST, env: Env):
             return f"({bt} ++ List.replicate {n_} 0)", ("list", "Nat")
         raise Unsupported(f"call {src[:80]}")
     raise Unsupported(f"expression {ast.unparse(e)[:80]}")
+
+
+def pure_inline(m: str, call: ast.Call, env: Env):
+    """a call of a side-effect-free method of the same class, as a (multi-line, parenthesised) expression"""
+    f = find_function(env.tree, env.cls, m)
+    if attrs_written(env, m):
+        raise Unsupported(f"{m} writes {sorted(attrs_written(env, m))}: not side-effect free")
+    names = signature_of(env, m)
+    given = dict(zip(names, call.args))
+    for kw in call.keywords:
+        if kw.arg in given or kw.arg not in names:
+            raise Unsupported(f"{m}: keyword {kw.arg}")
+        given[kw.arg] = kw.value
+    inner = env.copy()
+    inner.pure, inner.rec = True, None
+    inner.prefix = m.strip("_") + "_"
+    inner.names = {cb: env.names[cb] for cb in env.callbacks if cb in env.names}
+    lines = []
+    for n_ in names:
+        if n_ not in given:
+            continue                      # a default that the body must not read (fails closed when it does)
+        a_ = given[n_]
+        if isinstance(a_, ast.Dict) and all(isinstance(k_, ast.Constant) for k_ in a_.keys):
+            inner.dicts[n_] = {k_.value: ext(v_, env) for k_, v_ in zip(a_.keys, a_.values)}
+            continue
+        t_, ty_ = ext(a_, env)
+        ln = inner.bind(n_, ty_)
+        lines.append(f"let {ln} := {t_}")
+
+    def no_fall(e_):
+        raise Unsupported(f"{m}: a path ends without return")
+    ret_ty = []
+
+    def ret(t_):
+        return t_
+    lines += tr_block(f.body, inner, K(no_fall, ret))
+    return "(\n" + "\n".join("      " + l for l in lines) + ")", "Bool"
+
+
+def lambda_text(lam: ast.Lambda, names_types: list, env: Env) -> str:
+    """a Python lambda as a Lean `fun`; its parameters get the types the receiving method documents"""
+    args = [a_.arg for a_ in lam.args.args]
+    if len(args) != len(names_types):
+        raise Unsupported("lambda arity")
+    inner = env.copy()
+    inner.rec = None
+    bound = [inner.bind(a_, ty_) for a_, (_, ty_) in zip(args, names_types)]
+    body = ex(lam.body, inner)
+    return "(fun " + " ".join(bound) + " => " + body + ")"
 
 
 def ex(e: ast.AST, env: Env) -> str:
@@ -483,6 +562,27 @@ def tr_block(stmts, env: Env, k: K) -> list[str]:
         if a0 == "W":
             extra = [f"let {env.bind_self('__hasW')} := true"]
         return cont([f"let {v0} := []"] + extra)
+    if isinstance(s, ast.Assign) and len(s.targets) == 1 and isinstance(s.targets[0], ast.Name) and isinstance(s.value, ast.Lambda):
+        env.lambdas[s.targets[0].id] = s.value
+        return tr_block(rest, env, k)
+    if isinstance(s, ast.Assign) and len(s.targets) == 1 and isinstance(s.targets[0], ast.Name) and nested_call(s.value):
+        return cont(call_nested(s.value, env, s.targets[0].id))
+    if isinstance(s, ast.Assign) and len(s.targets) == 1 and isinstance(s.targets[0], ast.Tuple) and self_call(s.value) \
+            and self_call(s.value)[0] in TRANSLATED and all(isinstance(t_, ast.Name) for t_ in s.targets[0].elts):
+        m, call = self_call(s.value)
+        lines = call_translated(m, call, env, "tmp_")
+        rty = METHOD_RET[m]
+        if not (isinstance(rty, tuple) and rty[0] == "prod" and len(rty[1]) == len(s.targets[0].elts)):
+            raise Unsupported(f"tuple assignment from {m}")
+        vs = [env.bind(t_.id, ty_) for t_, ty_ in zip(s.targets[0].elts, rty[1])]
+        return cont(lines + [f"let ({', '.join(vs)}) := {env.names['tmp_']}"])
+    if isinstance(s, ast.Assign) and len(s.targets) == 1 and isinstance(s.targets[0], ast.Subscript) \
+            and is_self_attr(s.targets[0].value) in SELF_FIELDS and SELF_TYPES[is_self_attr(s.targets[0].value)] == "dict":
+        a0 = is_self_attr(s.targets[0].value)
+        old = ex(s.targets[0].value, env)
+        key, val = arg(s.targets[0].slice, env), arg(s.value, env)
+        v0 = env.bind_self(a0)
+        return cont([f"let {v0} := Art.mapPut {old} {key} {val}"])
     if isinstance(s, ast.Assign) and len(s.targets) == 1 and isinstance(s.targets[0], ast.Name) and self_call(s.value) \
             and self_call(s.value)[0] in TRANSLATED:
         m, call = self_call(s.value)
@@ -491,6 +591,8 @@ def tr_block(stmts, env: Env, k: K) -> list[str]:
         if rest:
             raise Unsupported("code after return")
         val, vty = ("()", "Unit") if s.value is None else ext(s.value, env)
+        if env.pure:
+            return [k.ret(val)]
         if vty != env.ret_ty:
             raise Unsupported(f"{env.fn} returns {vty}, expected {env.ret_ty}")
         return [k.ret(f"({self_pack()}, {val})")]
@@ -732,6 +834,51 @@ def tr_block(stmts, env: Env, k: K) -> list[str]:
         return ([f"match Art.Imp.forEach ({bname} E {'fuel ' if fuel_p else ''}{' '.join(bfv)}) {it} {tup} with",
                  f"| .ret r_ => {k.ret('r_')}", f"| .next {tup} =>"] + ind(after))
     raise Unsupported(f"statement {type(s).__name__}: {ast.unparse(s)[:80]}")
+
+
+def nested_call(e):
+    """self.<nested>.<method>(...) for a nested estimator of the profile"""
+    if isinstance(e, ast.Call) and isinstance(e.func, ast.Attribute) and is_self_attr(e.func.value) in NESTED:
+        return is_self_attr(e.func.value), e.func.attr, e
+    return None
+
+
+def call_nested(e: ast.Call, env: Env, target: str) -> list[str]:
+    attr, m, call = nested_call(e)
+    ncls = NESTED[attr]
+    prof = PROFILES[ncls]
+    if m not in prof["TRANSLATED"]:
+        raise Unsupported(f"{ncls}.{m} is not translated")
+    tree = env.trees[ncls]
+    f = find_function(tree, ncls, m)
+    names = [a_.arg for a_ in f.args.args[1:] if a_.arg not in IGNORED_PARAMS]
+    given = {n_: a_ for n_, a_ in zip([a_.arg for a_ in f.args.args[1:]], call.args)}
+    for kw in call.keywords:
+        if kw.arg in given or kw.arg is None:
+            raise Unsupported(f"{ncls}.{m}: keyword {kw.arg}")
+        given[kw.arg] = kw.value
+    lines, args = [], []
+    for n_ in names:
+        if n_ not in given:
+            raise Unsupported(f"{ncls}.{m}: argument {n_} not supplied (defaults are not translated)")
+        a_ = given[n_]
+        if n_ in CALLBACKS:
+            if not (isinstance(a_, ast.Name) and a_.id in env.lambdas):
+                raise Unsupported(f"{ncls}.{m}: {n_} must be a lambda bound just before the call")
+            sig = [("i", "Xt"), ("w", "Wt"), ("cluster", "Nat"), ("params", "P"), ("cache", "C")]
+            lines.append(f"let {a_.id}_fn := {lambda_text(env.lambdas[a_.id], sig, env)}")
+            args += ["false", f"{a_.id}_fn"]
+        else:
+            args.append(arg(a_, env))
+    obj = SELF_FIELDS[attr][0]
+    has_loop = any(isinstance(n_, ast.While) for n_ in ast.walk(f))
+    fuel = f"({obj}.W).length " if has_loop else ""
+    lines.append(f"let r_ := {prof['NAMESPACE']}.{m} E {fuel}{obj} " + " ".join(args))
+    v = env.bind_self(attr)
+    lines.append(f"let {v} := r_.1")
+    t = env.bind(target, prof["METHOD_RET"][m])
+    lines.append(f"let {t} := r_.2")
+    return lines
 
 
 def call_translated(m: str, call: ast.Call, env: Env, target: str) -> list[str]:
